@@ -221,7 +221,7 @@ impl<R: Round> Context<R> {
         assert_limited_precision(self.precision);
 
         // this method don't deal with the case where lhs significand is too large
-        debug_assert!(lhs.digits() <= self.precision + rhs.digits());
+        debug_assert!(lhs.digits() <= self.precision.saturating_add(rhs.digits()));
 
         let (mut q, mut r) = lhs.significand.div_rem(&rhs.significand);
         let mut e = lhs.exponent - rhs.exponent;
@@ -354,7 +354,7 @@ impl<R: Round> Context<R> {
     pub fn div<const B: Word>(&self, lhs: &Repr<B>, rhs: &Repr<B>) -> Rounded<FBig<R, B>> {
         assert_finite_operands(lhs, rhs);
 
-        let lhs_repr = if !lhs.is_zero() && lhs.digits_ub() > rhs.digits_lb() + self.precision {
+        let lhs_repr = if !lhs.is_zero() && lhs.digits_ub() > rhs.digits_lb().saturating_add(self.precision) {
             // shrink lhs if it's larger than necessary
             Self::new(rhs.digits() + self.precision)
                 .repr_round_ref(lhs)
